@@ -66,21 +66,59 @@ Proof.
     f_equal; f_equal; lia.
 Qed.
 
-(* all six placements of the three bytes in the low 24 bits, either endianness *)
+(* one component of a pixel made of three byte-aligned 8-bit components *)
+Lemma extract_byte a b c s t u : 0 <= a < 256 -> 0 <= b < 256 -> 0 <= c < 256 ->
+  (s = 0 \/ s = 8 \/ s = 16 \/ s = 24) -> (t = 0 \/ t = 8 \/ t = 16 \/ t = 24) -> (u = 0 \/ u = 8 \/ u = 16 \/ u = 24) ->
+  s <> t -> s <> u -> t <> u ->
+  Z.shiftr (a * 2 ^ s + b * 2 ^ t + c * 2 ^ u) s mod 256 = a.
+Proof.
+  intros Ha Hb Hc Hs Ht Hu N1 N2 N3. rewrite Z.shiftr_div_pow2 by lia.
+  destruct Hs as [->|[->|[->| ->]]]; destruct Ht as [->|[->|[->| ->]]]; try congruence;
+    destruct Hu as [->|[->|[->| ->]]]; try congruence;
+    change (2 ^ 0) with 1; change (2 ^ 8) with 256; change (2 ^ 16) with 65536; change (2 ^ 24) with 16777216; lia.
+Qed.
+
+Lemma three_bytes_bound a b c s t u : 0 <= a < 256 -> 0 <= b < 256 -> 0 <= c < 256 ->
+  (s = 0 \/ s = 8 \/ s = 16 \/ s = 24) -> (t = 0 \/ t = 8 \/ t = 16 \/ t = 24) -> (u = 0 \/ u = 8 \/ u = 16 \/ u = 24) ->
+  s <> t -> s <> u -> t <> u -> 0 <= a * 2 ^ s + b * 2 ^ t + c * 2 ^ u < 4294967296.
+Proof.
+  intros Ha Hb Hc Hs Ht Hu N1 N2 N3.
+  destruct Hs as [->|[->|[->| ->]]]; destruct Ht as [->|[->|[->| ->]]]; try congruence;
+    destruct Hu as [->|[->|[->| ->]]]; try congruence;
+    change (2 ^ 0) with 1; change (2 ^ 8) with 256; change (2 ^ 16) with 65536; change (2 ^ 24) with 16777216; lia.
+Qed.
+
+Lemma bswap_byte v s : 0 <= v < 4294967296 -> (s = 0 \/ s = 8 \/ s = 16 \/ s = 24) ->
+  Z.shiftr (le_val (rev (le_bytes 4 v))) (24 - s) mod 256 = Z.shiftr v s mod 256.
+Proof.
+  intros Hv Hs. rewrite !Z.shiftr_div_pow2 by lia. cbn [le_bytes rev app le_val].
+  destruct Hs as [->|[->|[->| ->]]];
+    change (24 - 0) with 24; change (24 - 8) with 16; change (24 - 16) with 8; change (24 - 24) with 0;
+    change (2 ^ 0) with 1; change (2 ^ 8) with 256; change (2 ^ 16) with 65536; change (2 ^ 24) with 16777216; lia.
+Qed.
+
+(* every byte-aligned placement of the three bytes in the 32 bits, either endianness *)
 Lemma tpix_rt_888 p r g b : tp_pack24 p = true ->
-  (tp_rs p = 0 \/ tp_rs p = 8 \/ tp_rs p = 16) -> (tp_gs p = 0 \/ tp_gs p = 8 \/ tp_gs p = 16) ->
-  (tp_bs p = 0 \/ tp_bs p = 8 \/ tp_bs p = 16) ->
+  (tp_rs p = 0 \/ tp_rs p = 8 \/ tp_rs p = 16 \/ tp_rs p = 24) -> (tp_gs p = 0 \/ tp_gs p = 8 \/ tp_gs p = 16 \/ tp_gs p = 24) ->
+  (tp_bs p = 0 \/ tp_bs p = 8 \/ tp_bs p = 16 \/ tp_bs p = 24) ->
   tp_rs p <> tp_gs p -> tp_rs p <> tp_bs p -> tp_gs p <> tp_bs p ->
   0 <= r < 256 -> 0 <= g < 256 -> 0 <= b < 256 ->
   tpix_rt p (grid_pixel_of_value (tp_be p) 4 (r * 2 ^ tp_rs p + g * 2 ^ tp_gs p + b * 2 ^ tp_bs p)).
 Proof.
-  intros HP HR HG HB N1 N2 N3 Hr Hg Hb rest. unfold take_tpixel, tpixel_bytes, tp_fmt, grid_pixel_of_value.
-  cbn [tf_tp3 tf_be tf_rs tf_gs tf_bs]. rewrite HP.
-  destruct (tp_be p); destruct HR as [ER|[ER|ER]]; destruct HG as [EG|[EG|EG]]; destruct HB as [EB|[EB|EB]];
-    rewrite ER, EG, EB in *; try congruence; cbn [app le_bytes rev le_val];
-    rewrite !Z.shiftr_div_pow2 by lia; change (24 - 0) with 24; change (24 - 8) with 16; change (24 - 16) with 8;
-    change (2 ^ 0) with 1; change (2 ^ 8) with 256; change (2 ^ 16) with 65536; change (2 ^ 24) with 16777216;
-    f_equal; f_equal; lia.
+  intros HP HR HG HB N1 N2 N3 Hr Hg Hb rest. unfold take_tpixel, tpixel_bytes, tp_fmt.
+  cbn [tf_tp3 tf_be tf_rs tf_gs tf_bs]. rewrite HP. cbn [app].
+  set (v := r * 2 ^ tp_rs p + g * 2 ^ tp_gs p + b * 2 ^ tp_bs p).
+  assert (ER : Z.shiftr v (tp_rs p) mod 256 = r) by (apply extract_byte; auto).
+  assert (EG : Z.shiftr v (tp_gs p) mod 256 = g).
+  { unfold v. replace (r * 2 ^ tp_rs p + g * 2 ^ tp_gs p + b * 2 ^ tp_bs p) with (g * 2 ^ tp_gs p + r * 2 ^ tp_rs p + b * 2 ^ tp_bs p) by ring.
+    apply extract_byte; auto. }
+  assert (EB : Z.shiftr v (tp_bs p) mod 256 = b).
+  { unfold v. replace (r * 2 ^ tp_rs p + g * 2 ^ tp_gs p + b * 2 ^ tp_bs p) with (b * 2 ^ tp_bs p + r * 2 ^ tp_rs p + g * 2 ^ tp_gs p) by ring.
+    apply extract_byte; auto. }
+  assert (V32 : 0 <= v < 4294967296) by (apply three_bytes_bound; auto).
+  unfold grid_pixel_of_value. destruct (tp_be p).
+  - rewrite !bswap_byte by auto. rewrite ER, EG, EB. reflexivity.
+  - rewrite ER, EG, EB. reflexivity.
 Qed.
 
 Lemma take_tpixels_app p ps rest : Forall (tpix_rt p) ps ->
